@@ -394,20 +394,26 @@ func c12R3(p *Prog, r *Report) {
 	if fi := p.Func("config.initConverter"); fi != nil {
 		info := fi.Pkg.TypesInfo
 		n := 0
-		ast.Inspect(fi.Decl, func(nn ast.Node) bool {
-			as, ok := nn.(*ast.AssignStmt)
-			if !ok || len(as.Lhs) != 1 {
-				return true
-			}
-			if isFieldSel(info, as.Lhs[0], modPath+"/config", "Converter", "ConverterConfig") {
-				if id, ok := ast.Unparen(as.Rhs[0]).(*ast.Ident); ok && strings.HasPrefix(id.Name, "DefaultConfig") {
-					n++
-				} else {
-					n = -100
+		var decls []ast.Node
+		for _, rf := range p.Region("config.initConverter") {
+			decls = append(decls, rf.Decl)
+		}
+		for _, d := range decls {
+			ast.Inspect(d, func(nn ast.Node) bool {
+				as, ok := nn.(*ast.AssignStmt)
+				if !ok || len(as.Lhs) != 1 {
+					return true
 				}
-			}
-			return true
-		})
+				if isFieldSel(info, as.Lhs[0], modPath+"/config", "Converter", "ConverterConfig") {
+					if id, ok := ast.Unparen(as.Rhs[0]).(*ast.Ident); ok && strings.HasPrefix(id.Name, "DefaultConfig") {
+						n++
+					} else {
+						n = -100
+					}
+				}
+				return true
+			})
+		}
 		if n == 2 {
 			r.OK("config.initConverter/defaults", p.PosStr(fi.Decl.Pos()), "ConverterConfig starts from DefaultConfigInterface / DefaultConfigVariables")
 		} else {
@@ -434,6 +440,21 @@ func c12R3(p *Prog, r *Report) {
 			return true
 		})
 		calls := findCalls(info, fi.Decl, modPath+"/config", "", "parseMethodLine")
+		if len(calls) == 0 {
+			// the lines may be applied by a private helper of parseMethod
+			ast.Inspect(fi.Decl, func(nn ast.Node) bool {
+				call, ok := nn.(*ast.CallExpr)
+				if !ok {
+					return true
+				}
+				if f, ok := calleeObj(info, call).(*types.Func); ok && !f.Exported() && objPkgPath(f) == modPath+"/config" {
+					if h := p.Func(funcKey(f)); h != nil && p.inRegion("config.parseMethod", h) && len(findCalls(info, h.Decl, modPath+"/config", "", "parseMethodLine")) == 1 {
+						calls = append(calls, call)
+					}
+				}
+				return true
+			})
+		}
 		if okCopy && lit != nil && len(calls) == 1 && calls[0].Pos() > lit.End() {
 			r.OK("config.parseMethod/inherit", p.PosStr(lit.Pos()), "Method.Common is a value copy of the converter's Common; method lines are applied to it afterwards")
 		} else {
@@ -485,35 +506,57 @@ func c12R3(p *Prog, r *Report) {
 	if fi := p.Func("cli.parseGen"); fi != nil {
 		info := fi.Pkg.TypesInfo
 		ok := false
-		ast.Inspect(fi.Decl, func(nn ast.Node) bool {
-			cl, isCl := nn.(*ast.CompositeLit)
-			if isCl && isNamed(info.TypeOf(cl), modPath+"/config", "RawLines") {
-				if v := compositeField(cl, "Lines"); v != nil {
-					if id, isID := ast.Unparen(v).(*ast.Ident); isID {
-						// the variable registered with fs.Var(&global, "g"/"global")
-						obj := info.ObjectOf(id)
-						flags := map[string]bool{}
-						ast.Inspect(fi.Decl, func(m ast.Node) bool {
-							call, isCall := m.(*ast.CallExpr)
-							if isCall && len(call.Args) == 3 {
-								if fn, isFn := calleeObj(info, call).(*types.Func); isFn && objPkgPath(fn) == "flag" && fn.Name() == "Var" {
-									if rid := rootIdent(unaddr(call.Args[0])); rid != nil && info.ObjectOf(rid) == obj {
-										if s, isS := constString(info, call.Args[1]); isS {
-											flags[s] = true
+		for _, rf := range p.Region("cli.parseGen") {
+			rf := rf
+			ast.Inspect(rf.Decl, func(nn ast.Node) bool {
+				cl, isCl := nn.(*ast.CompositeLit)
+				if isCl && isNamed(info.TypeOf(cl), modPath+"/config", "RawLines") {
+					if v := compositeField(cl, "Lines"); v != nil {
+						if id, isID := ast.Unparen(v).(*ast.Ident); isID {
+							// the variable registered with fs.Var(&global, "g"/"global") — possibly handed to a private helper
+							obj := info.ObjectOf(id)
+							if rf != fi {
+								if e, in := originExpr(p, rf, id, 0); e == nil || in != fi {
+									// a parameter: take the caller's argument
+									if prmObj, isVar := obj.(*types.Var); isVar && isParamOf(rf, prmObj) {
+										for _, cs := range p.Calls() {
+											if f, isF := cs.Callee.(*types.Func); isF && f.Origin() == rf.Obj.Origin() && cs.Encl == fi {
+												sig := rf.Obj.Type().(*types.Signature)
+												for i := 0; i < sig.Params().Len() && i < len(cs.Call.Args); i++ {
+													if sig.Params().At(i) == prmObj {
+														if aid := rootIdent(cs.Call.Args[i]); aid != nil {
+															obj = info.ObjectOf(aid)
+														}
+													}
+												}
+											}
 										}
 									}
 								}
 							}
-							return true
-						})
-						if flags["g"] && flags["global"] {
-							ok = true
+							flags := map[string]bool{}
+							ast.Inspect(fi.Decl, func(m ast.Node) bool {
+								call, isCall := m.(*ast.CallExpr)
+								if isCall && len(call.Args) == 3 {
+									if fn, isFn := calleeObj(info, call).(*types.Func); isFn && objPkgPath(fn) == "flag" && fn.Name() == "Var" {
+										if rid := rootIdent(unaddr(call.Args[0])); rid != nil && info.ObjectOf(rid) == obj {
+											if s, isS := constString(info, call.Args[1]); isS {
+												flags[s] = true
+											}
+										}
+									}
+								}
+								return true
+							})
+							if flags["g"] && flags["global"] {
+								ok = true
+							}
 						}
 					}
 				}
-			}
-			return true
-		})
+				return true
+			})
+		}
 		if ok {
 			r.OK("cli.parseGen/-g", p.PosStr(fi.Decl.Pos()), "flags -g and -global collect into GenerateConfig.Global.Lines")
 		} else {
@@ -540,7 +583,17 @@ func subMethodCommonRule(p *Prog, r *Report, site string) {
 	}
 	info := fi.Pkg.TypesInfo
 	found, ok := false, false
-	ast.Inspect(fi.Decl, func(n ast.Node) bool {
+	// createSubMethod and the private helpers it builds the method with
+	var regionDecl []ast.Node
+	for _, rf := range p.Region("generator.(*generator).createSubMethod") {
+		regionDecl = append(regionDecl, rf.Decl)
+	}
+	inspectAll := func(f func(n ast.Node) bool) {
+		for _, d := range regionDecl {
+			ast.Inspect(d, f)
+		}
+	}
+	inspectAll(func(n ast.Node) bool {
 		cl, isCl := n.(*ast.CompositeLit)
 		if !isCl || !isNamed(info.TypeOf(cl), modPath+"/config", "Method") {
 			return true
@@ -568,7 +621,7 @@ func subMethodCommonRule(p *Prog, r *Report, site string) {
 	}
 	// later stores into Common fields of the new method
 	bad := ""
-	ast.Inspect(fi.Decl, func(n ast.Node) bool {
+	inspectAll(func(n ast.Node) bool {
 		as, isAs := n.(*ast.AssignStmt)
 		if !isAs {
 			return true
@@ -785,29 +838,66 @@ func c12R4(p *Prog, r *Report) {
 }
 
 func c12R5(p *Prog, r *Report, comm *FuncInfo, ks *switchInfo) {
-	r.Rule("C12.R5", "the conflicting pair: the wrapErrors arm returns an error when WrapErrorsUsing is set and the wrapErrorsUsing arm when WrapErrors is set, before assigning", 2)
-	info := comm.Pkg.TypesInfo
+	r.Rule("C12.R5", "the conflicting pair: evaluated with the key fixed to wrapErrors and Common.WrapErrorsUsing already set (resp. wrapErrorsUsing with Common.WrapErrors set), parseCommon cannot return success and cannot have stored the new value", 2)
+	sf := p.SSAFunc(comm)
+	if sf == nil || len(sf.Params) < 2 {
+		r.Unresolved("SSA of config.parseCommon")
+		return
+	}
 	for _, pr := range [][2]string{{"wrapErrors", "WrapErrorsUsing"}, {"wrapErrorsUsing", "WrapErrors"}} {
-		cc := ks.labels[pr[0]]
-		site := fmt.Sprintf("config.parseCommon/case %q conflict", pr[0])
-		if cc == nil {
-			r.Bad(site, p.PosStr(ks.sw.Pos()), "arm missing")
-			continue
-		}
-		ok := false
-		if len(cc.Body) > 0 {
-			if ifs, isIf := cc.Body[0].(*ast.IfStmt); isIf && mentionsField(info, ifs.Cond, modPath+"/config", "Common", pr[1]) && endsInExit(ifs.Body) {
-				if ret, isRet := ifs.Body.List[len(ifs.Body.List)-1].(*ast.ReturnStmt); isRet && len(ret.Results) == 2 && callTo(info, ret.Results[1], "fmt", "", "Errorf") != nil {
-					ok = true
+		key, other := pr[0], pr[1]
+		own := map[string]string{"wrapErrors": "WrapErrors", "wrapErrorsUsing": "WrapErrorsUsing"}[key]
+		site := fmt.Sprintf("config.parseCommon/case %q conflict", key)
+		nOther := 0
+		sc := &absScenario{
+			assume: func(v ssa.Value, _ func(ssa.Value) absVal) (absVal, bool) {
+				if v == ssa.Value(sf.Params[1]) {
+					return aStr(key), true
 				}
-			}
+				// the other setting is already in force
+				if other == "WrapErrors" && loadsFieldNamed(v, "WrapErrors") {
+					nOther++
+					return aBool(true), true
+				}
+				if bo, ok := v.(*ssa.BinOp); ok && other == "WrapErrorsUsing" && (bo.Op == token.EQL || bo.Op == token.NEQ) {
+					x, y := bo.X, bo.Y
+					if _, isK := x.(*ssa.Const); isK {
+						x, y = y, x
+					}
+					if k, isK := y.(*ssa.Const); isK && loadsFieldNamed(x, "WrapErrorsUsing") {
+						if a := constVal(k); a.k == absStr && a.s == "" {
+							nOther++
+							return aBool(bo.Op == token.NEQ), true
+						}
+					}
+				}
+				return aUnknown, false
+			},
+			marks: func(in ssa.Instruction) (string, bool) {
+				if st, ok := in.(*ssa.Store); ok {
+					if fa, ok := st.Addr.(*ssa.FieldAddr); ok && fieldName(fa) == own {
+						return "stored", true
+					}
+				}
+				return "", false
+			},
 		}
-		if ok {
-			r.OK(site, p.PosStr(cc.Pos()), "tests "+pr[1]+" first and returns an error")
-		} else {
-			r.Bad(site, p.PosStr(cc.Pos()), "does not reject the combination with "+pr[1]+" before assigning")
+		got := absReachState(sf, sc, func(ret *ssa.Return, eval func(ssa.Value) absVal, st map[string]absVal) bool {
+			if _, stored := st["@stored"]; stored {
+				return true
+			}
+			return successGoal(ret, eval)
+		})
+		switch {
+		case nOther == 0:
+			r.Bad(site, p.PosStr(comm.Decl.Pos()), "the arm does not look at Common."+other+" at all: the conflicting pair would be accepted")
+		case got != nil:
+			r.Bad(site, p.PosStr(got.Pos()), "with "+other+" already set the arm can still succeed or store "+own+": wrapErrors and wrapErrorsUsing could both be in force")
+		default:
+			r.OK(site, p.PosStr(comm.Decl.Pos()), "with "+other+" set: no success, nothing stored")
 		}
 	}
+	_ = ks
 }
 
 func c12R6(p *Prog, r *Report) {
